@@ -145,12 +145,13 @@ def _migrate_csv_to_rules(csv_file: str, config_dir: str, backup: bool = True) -
         # point, settings.yaml either still leads to the CSV or already to the new file.
         settings_path = os.path.join(config_dir, 'settings.yaml')
         if os.path.exists(settings_path):
-            with open(settings_path, 'r', encoding='utf-8') as f:
+            # newline='': the existing lines are written back byte for byte (CRLF files stay CRLF)
+            with open(settings_path, 'r', encoding='utf-8', newline='') as f:
                 content = f.read()
             # Look for a real top-level key, not a mention inside a comment
             if not re.search(r'^merchants_file\s*:', content, re.MULTILINE):
                 tmp_path = settings_path + '.tmp'
-                with open(tmp_path, 'w', encoding='utf-8') as f:
+                with open(tmp_path, 'w', encoding='utf-8', newline='') as f:
                     f.write(content)
                     f.write('\n# Merchant rules file (migrated from CSV)\n')
                     f.write('merchants_file: config/merchants.rules\n')
